@@ -2,7 +2,12 @@
 
 package xds
 
+import "istio.io/istio/pilot/pkg/model"
+
 // verifGate marks the boundaries of the registration window of initConnection for the verification
 // harness (see zz_verif_e2e.go, build tag verif). Without the tag it is this empty function, which
 // the compiler inlines away.
 func verifGate(string) {}
+
+// verifGateReq marks the entry of ConfigUpdate for the verification harness (see zz_verif_e2e.go).
+func verifGateReq(string, *model.PushRequest) {}
